@@ -234,6 +234,16 @@ var props = map[string]propDef{
 		Thorough:       budget{Runs: 5000, Chunk: 40, Wall: 40 * time.Minute, PerChunkGrace: 5 * time.Minute},
 		MinimiseBudget: 90 * time.Second,
 	},
+	"C35": {
+		Binary: "dsim-sql", Harness: "C35", Level: "exploration",
+		Rule: "each run = two databases of one production SQL engine (the second a clone of the first) and one remote: a file remote (file-manifest store directory) or an HTTP remote (the real remotesrv gRPC service and HTTP file handler behind the simulated network, serving a file-manifest store); 12-36 seeded steps (up to 80 thorough): commits of 1-120 rows on 1-4 branches of either database, new branches, same-key edits on both sides, dolt_push (one in five forced), dolt_fetch, dolt_pull, dolt_clone, clean engine restart, remote server restart; the puller's table-file size is drawn per run (1 KiB - 1 GiB) so that a transfer is one or many files. Two in five transfers of three quarters of the runs are disturbed: EIO at the k-th mutating file operation on the destination, a disk that stays dead from the k-th operation on, one network exchange in 2-6 lost before delivery / lost after delivery / delivered twice / body cut short, or process death at file-operation positions inside the transfer (crash images keep-all, lose-all-unsynced, names-only of the destination, re-opened with the real code). After every step: a walk from the root of every store (databases, clones, the remote through a store object of its own) must read every chunk with bytes that hash to its address; the remote's branches must be exactly where the acknowledged pushes put them (after a failed push: old or pushed head, nothing else); a non-forced push over a head that is not an ancestor must be refused; after a successful fetch / clone the tracking refs equal the remote's heads, after a successful pull the branch contains the remote's head and its own old head; no other local branch moves. One evaluation = one global check or one crash image.",
+		Assumptions: []string{"the two pushers run in one process and take turns (S0); racing pushers are exercised at the store level by C02/C20 and in the concurrent part of this harness when it is enabled", "shallow clones, tags and branch deletion on the remote are not generated", "content addressing: equal commit hash + complete, hash-verified closure = identical data"},
+		Real:        append([]string{"sqle/dprocedures dolt_push / dolt_pull / dolt_fetch / dolt_clone, env/actions remotes", "go/store/datas/pull puller and clone", "remotesrv RemoteChunkStore + file handler + sealer, remotestorage DoltChunkStore (HTTP remote)", "nbs file-manifest store as the remote"}, sqlReal...), Stub: append([]string{"gRPC transport, HTTP/2, TLS, sockets (simulated network delivers each exchange to the server object; the protobuf codec is kept)"}, sqlStub...), Persistence: persistenceModel,
+		ExpectProbes:   []string{"transfer_ok", "push_ok", "fetch_ok", "pull_ok", "clone_ok", "non_ff_push_refused", "forced_non_ff_push", "pull_made_merge_commit", "disk-eio", "disk-dead", "crash:keep-all", "crash_image_closed_under_references", "clean-restart"},
+		Quick:          budget{Runs: 120, Chunk: 8, Wall: 150 * time.Second, PerChunkGrace: 120 * time.Second},
+		Thorough:       budget{Runs: 5000, Chunk: 40, Wall: 40 * time.Minute, PerChunkGrace: 5 * time.Minute},
+		MinimiseBudget: 90 * time.Second,
+	},
 	"C27": {
 		Binary: "dsim-sql", Harness: "C27", Level: "exploration",
 		Rule: "each run = 2-3 sessions (autocommit drawn per session) on main plus one session on branch b1 of a fresh on-disk repository behind the production SQL engine; one keyless table kl(a, b) with a secondary index; 20-70 seeded statements: multi-row INSERT of duplicate rows, DELETE ... LIMIT n, UPDATE ... LIMIT n, COMMIT / ROLLBACK, edits on b1, CALL dolt_merge('b1'), clean restarts. The reference model is a multiset per session (snapshot + own writes) and per branch; transaction commits and branch merges combine multiplicity changes row by row (both sides changed the multiplicity of one row differently => must be reported as a conflict). Every GROUP BY over all columns, COUNT(*) and index lookup must equal the multiset. One evaluation = one checked read.",
